@@ -140,10 +140,18 @@ impl Frame {
         };
 
         // Read the payload
-        let mut payload: Vec<u8> = vec![0; length as usize];
+        // Read at most `length` bytes, growing the buffer as data arrives, so that memory use
+        // follows the bytes actually received rather than the length the peer claims.
+        let mut payload: Vec<u8> = Vec::new();
         stream
-            .read_exact(&mut payload)
+            .by_ref()
+            .take(length)
+            .read_to_end(&mut payload)
             .map_err(|_| WebsocketError::ReadError)?;
+
+        if payload.len() as u64 != length {
+            return Err(WebsocketError::ReadError);
+        }
 
         // Unmask the payload
         payload
